@@ -32,8 +32,9 @@ PROPS = {
              "of {0.25,0.75,1,1.5,3}; core = 13 ASCII + 3 Unicode snippets. Oracle: Render neither panics (own recover, signature = innermost d2 frame) nor "
              "returns an error; class ascii + charset.ASCII: every rune of the output is < 0x80; both charsets, both classes: the trimmed single-line label of "
              "every plain shape (exported type rectangle/square, no child, no icon, no language, label position INSIDE_MIDDLE_CENTER) occurs in the output at "
-             "least as often as plain shapes carry it. A lost label is classified by construct (non-ASCII label / label has more characters than the box has "
-             "columns / a route crosses the box / endpoint of a labelled connection / in-sequence, multiple, 3d / plain). non-trivial = >=3 shapes and >=1 "
+             "least as often as plain shapes carry it. A lost label is classified by experiment on the same laid-out diagram (non-ASCII label / back when connection and "
+             "arrowhead labels are blanked / back when connections are removed / back when the other shapes' labels are blanked, or some label has more "
+             "characters than its box has columns / in-sequence, multiple, 3d / plain). non-trivial = >=3 shapes and >=1 "
              "labelled connection.",
         assumptions=["the input domain is the exported diagram: labels are compared as exported (after text-transform / caps-lock)",
                      "a label lost because the LAYOUT puts another unrelated shape over the box (e.g. two objects with the same constant near) is counted gray",
